@@ -359,9 +359,28 @@ func (t *FnTrans) sentinel(full string) string {
 	return n
 }
 
+// globalAxioms: `axiom <expr>` lines of (assumed) package specifications constrain that package's ghost
+// globals in the entry state (they are about model state that no contract lists as modified, or that
+// every contract preserves). Only axioms of the function's own package and of packages it imports are
+// emitted.
 func (t *FnTrans) globalAxioms() {
 	for _, a := range t.eng.specs.Axioms {
-		_ = a
+		var ap *types.Package
+		if a.Arg == t.fn.Pkg.Pkg.Path() {
+			ap = t.fn.Pkg.Pkg
+		} else {
+			for _, imp := range t.fn.Pkg.Pkg.Imports() {
+				if imp.Path() == a.Arg {
+					ap = imp
+				}
+			}
+		}
+		if ap == nil {
+			continue
+		}
+		env := &Env{t: t, vars: map[string]SVal{}, st: t.entry, pkg: ap, selfAlloc0: q("$alloc@0")}
+		t.emit("(assert " + env.evalBool(a.E) + ")")
+		t.abstr["assumed axiom of "+a.Arg+": "+a.Text] = true
 	}
 }
 
@@ -1005,8 +1024,17 @@ func (t *FnTrans) staticMod(x *Expr, ptypes map[string]types.Type, pkg *types.Pa
 		return true
 	case x.Op == "call" && x.Name == "ghost":
 		name := x.Args[0].Name
-		if s, ok := t.eng.specs.Ghosts[pkg.Path()+"."+name]; ok {
-			t.w(l, "GG."+pkg.Path()+"."+name, s)
+		gp := pkg
+		if a := x.Args[0]; a.Op == "sel" && a.Args[0].Op == "id" {
+			if p := t.eng.findPkg(a.Args[0].Name, pkg); p != nil {
+				gp = p
+			}
+		}
+		if gp == nil {
+			return false
+		}
+		if s, ok := t.eng.specs.Ghosts[gp.Path()+"."+name]; ok {
+			t.w(l, "GG."+gp.Path()+"."+name, s)
 			return true
 		}
 		return false
